@@ -85,6 +85,21 @@ Proof.
                  (fun r _ => cols_of_length st r) H1 H2 idx Hin).
 Qed.
 
+(* the form the skeleton needs: any normalisation that keeps the squared residual *)
+Theorem cp_loop_reports_true_errors_gen (wm : bool) (Orc : oracle blk) (C : config) :
+  (forall st, cpErr2 (normalized Orc st) = cpErr2 st) ->
+  well_formed C -> last (modes C) 0 < N ->
+  forall (n : nat) (init : blocks blk),
+  let l := run (cpFast wm) cpErr2 Orc C n init in
+  Forall (good_event blk F F cpErr2 (fun e => e)) (trace l) /\
+  last_report_ok blk F F cpErr2 (fun e => e) l /\
+  last (trace l) EBreak = EReturn (cur l).
+Proof.
+  intros Hn WF Hl n init.
+  apply (skeleton_sound_gen blk F F cpErr2 (fun e => e) (cpFast wm) cpErr2 Orc C (fun k => k < N)); auto.
+  intros cur0 k snap Hk Hs. now apply cp_fast_right.
+Qed.
+
 Theorem cp_loop_reports_true_errors (wm : bool) (Orc : oracle blk) (C : config) :
   (forall st, resc st (normalized Orc st)) ->
   well_formed C -> last (modes C) 0 < N ->
